@@ -977,6 +977,12 @@ func (as *AbacoSource) readerMainLoop() {
 	defer ticker.Stop()
 	as.lastread = time.Now()
 
+	// Frames and bytes filled in for missing packets but not yet reported in a buffer. They are
+	// carried from tick to tick, because a tick that fills in for one group can still have to wait
+	// for another group's data before anything is sent downstream.
+	var droppedFrames int
+	var droppedBytes int
+
 awaitmoredata:
 	for {
 		select {
@@ -992,8 +998,6 @@ awaitmoredata:
 		case <-ticker.C:
 			// read from the UDP port or ring buffer
 			var lastSampleTime time.Time
-			var droppedFrames int
-			var droppedBytes int
 			for _, pp := range as.producers {
 				allPackets, err := pp.ReadAllPackets()
 				lastSampleTime = time.Now()
@@ -1083,6 +1087,7 @@ awaitmoredata:
 				droppedBytes:   droppedBytes,
 				droppedFrames:  droppedFrames,
 			}
+			droppedFrames, droppedBytes = 0, 0
 			if bytesProcessed > 0 {
 				timeout.Reset(timeoutPeriod)
 			}
